@@ -213,7 +213,7 @@ func (cfg *Config) paramExp(pe *syntax.ParamExp) (string, error) {
 		}
 		str = join(elems)
 	case pe.Exp != nil:
-		arg, err := Literal(cfg, pe.Exp.Word)
+		arg, err := literal(cfg, pe.Exp.Word, false)
 		if err != nil {
 			return "", err
 		}
@@ -361,7 +361,7 @@ func (cfg *Config) perElemOps(pe *syntax.ParamExp, elems []string) ([]string, er
 	case pe.Repl != nil:
 		return cfg.replaceElems(pe.Repl, elems)
 	case pe.Exp != nil:
-		arg, err := Literal(cfg, pe.Exp.Word)
+		arg, err := literal(cfg, pe.Exp.Word, false)
 		if err != nil {
 			return nil, err
 		}
@@ -386,7 +386,7 @@ func (cfg *Config) replaceElems(repl *syntax.Replace, elems []string) ([]string,
 	if orig == "" {
 		return elems, nil // nothing to replace
 	}
-	with, err := Literal(cfg, repl.With)
+	with, err := literal(cfg, repl.With, false)
 	if err != nil {
 		return nil, err
 	}
@@ -510,7 +510,7 @@ func (cfg *Config) varInd(vr Variable, idx syntax.ArithmExpr) (string, bool, err
 			// or ${a[x+1]}, but an associative array wants the subscript as a string.
 			return "", false, fmt.Errorf("unsupported subscript for an associative array")
 		}
-		val, err := Literal(cfg, word)
+		val, err := literal(cfg, word, false)
 		if err != nil {
 			return "", false, err
 		}
@@ -549,7 +549,7 @@ func (cfg *Config) assignElem(name string, vr Variable, idx syntax.ArithmExpr, v
 				return fmt.Errorf("unsupported subscript for an associative array")
 			}
 			var err error
-			if key, err = Literal(cfg, word); err != nil {
+			if key, err = literal(cfg, word, false); err != nil {
 				return err
 			}
 		}
